@@ -172,8 +172,6 @@ class SimA(SimBase):
         hs = []
         if self.host is not None:
             hs.append((b'host', self.host.encode()))
-        if self.scheme != 'http':
-            hs.append((b'x-forwarded-proto', self.scheme.encode()))
         if body is not None or declared is not None:
             hs.append((b'content-length', str(
                 len(body or b'') if declared is None else declared).encode()))
@@ -188,7 +186,10 @@ class SimA(SimBase):
               'asgi': {'version': '3.0'}, 'http_version': '1.1',
               'path': path, 'raw_path': path.encode(),
               'query_string': self.qs(q).encode('utf-8'), 'headers': hs,
-              'scheme': self.scheme, 'server': ('srv.test', 80),
+              'scheme': (self.scheme if ws is None else
+                         {'http': 'ws', 'https': 'wss'}.get(self.scheme,
+                                                            self.scheme)),
+              'server': ('srv.test', 80),
               'client': ('127.0.0.1', 5555)}
         if ws is None:
             sc['method'] = method
